@@ -201,6 +201,11 @@ Section WithRle.
     eapply G; [exact B|constructor].
   Qed.
 
+End WithRle.
+
+Section WithRleSafe.
+  Variable rle_decode : N -> list N -> N -> res (list N).
+
   (** C08: the decoders never fault, given a safe index decoder that respects [max] *)
   Hypothesis rle_nofault : forall w bs max f, rle_decode w bs max <> Fault f.
   Hypothesis rle_le_max : forall w bs max ix, rle_decode w bs max = Ok ix -> len ix <= max.
@@ -242,6 +247,6 @@ Section WithRle.
     destruct (rle_decode bw stream out_count) as [ix|c|e]; try discriminate.
     destruct (len ix <? out_count); [discriminate|]. specialize (LE _ eq_refl).
     assert (E2 : (out_count <? len ix) = false) by (apply N.ltb_ge; exact LE). rewrite E2.
-    intros Q. destruct (lookup_nofault k dict (Z.to_N dc) E ix) as [_ SZ]. unfold len in *. rewrite (SZ _ Q). exact LE.
+    intros Q. destruct (lookup_nofault k dict (Z.to_N dc) E ix) as [_ SZ]. unfold len in LE |- *. rewrite (SZ _ Q). exact LE.
   Qed.
-End WithRle.
+End WithRleSafe.
